@@ -404,7 +404,10 @@ class NetworkService(ModelElement):
         # check uniqueness against the model, not this handle's list: another handle of the
         # same service may have added interfaces since this one was created
         model_ids = self.topo.graph_model.get_all_ns_or_link_connection_points(link_id=self.node_id)
-        all_names = [self.topo.graph_model.get_node_properties(node_id=i)[1][ABCPropertyGraph.PROP_NAME]
+        # only the ports this handle has not seen yet need a look-up in the model
+        known = {i.node_id: i.name for i in self._interfaces}
+        all_names = [known[i] if i in known else
+                     self.topo.graph_model.get_node_properties(node_id=i)[1][ABCPropertyGraph.PROP_NAME]
                      for i in model_ids]
         if name in all_names:
             raise TopologyException(f'Interface {name} is not unique within a network service')
